@@ -1,6 +1,7 @@
 import json
 import re
 import time
+import tokenize
 from collections.abc import Callable, Sequence
 from contextlib import suppress
 from functools import cache, partial
@@ -78,7 +79,10 @@ def version() -> str:  # pragma: no cover
 
 @cache
 def get_source_lines(filepath: str) -> list[str]:
-    return Path(filepath).read_text("utf8").splitlines()
+    # Decode the file the way Python does (BOM, PEP 263 coding cookie) instead of
+    # assuming UTF-8.
+    with tokenize.open(filepath) as f:
+        return f.read().splitlines()
 
 
 def is_ignored_via_comment(error: Error) -> bool:
